@@ -237,6 +237,70 @@ def _pdf_decision(pfn, env, PasswordType, notes):
     return {"password": call.args[0].value, "test": text, "exc_rejects": exc_rejects, "types": types}
 
 
+def _self_attr(n):
+    return isinstance(n, ast.Attribute) and isinstance(n.value, ast.Name) and n.value.id == "self"
+
+
+def _sz_reader_state(tree, notes):
+    """(needs_password is a pure function of self._folders, every store to self._folders is an unconditional plain assignment)
+    read from the CURRENT source of class SevenZipReader / SevenZipFile; every deviation is named in `notes`."""
+    classes = {c.name: c for c in tree.body if isinstance(c, ast.ClassDef)}
+    rd = classes.get("SevenZipReader")
+    if rd is None:
+        raise ValueError("class SevenZipReader not found")
+    pure = True
+    for cname, allowed in (("SevenZipReader", {"_folders"}), ("SevenZipFile", {"_reader"})):
+        cls = classes.get(cname)
+        fns = [f for f in (cls.body if cls else []) if isinstance(f, ast.FunctionDef) and f.name == "needs_password"]
+        if len(fns) != 1:
+            notes.append(f"{cname}.needs_password: expected exactly one definition, found {len(fns)}")
+            pure = False
+            continue
+        fn = fns[0]
+        why = []
+        if fn.decorator_list:
+            why.append("is decorated (" + ", ".join(ast.unparse(d) for d in fn.decorator_list) + ")")
+        for n in ast.walk(fn):
+            if isinstance(n, ast.Attribute) and isinstance(n.ctx, (ast.Store, ast.Del)):
+                why.append(f"writes {ast.unparse(n)}")
+            elif isinstance(n, (ast.Global, ast.Nonlocal)):
+                why.append("declares global / nonlocal names")
+            elif isinstance(n, ast.Call) and isinstance(n.func, ast.Name) and n.func.id in ("setattr", "delattr", "vars"):
+                why.append(f"calls {n.func.id}()")
+            elif _self_attr(n) and isinstance(n.ctx, ast.Load) and n.attr not in allowed:
+                why.append(f"reads self.{n.attr}")
+            elif isinstance(n, ast.Name) and n.id == "self" and isinstance(n.ctx, ast.Load):
+                pass
+        # `self` used other than as `self.<attr>` (passed on, __dict__ ...)
+        attr_selfs = {id(n.value) for n in ast.walk(fn) if _self_attr(n)}
+        if any(isinstance(n, ast.Name) and n.id == "self" and id(n) not in attr_selfs for n in ast.walk(fn) if not isinstance(n, ast.arg)):
+            why.append("uses `self` other than through an attribute")
+        if why:
+            pure = False
+            notes.append(f"{cname}.needs_password is not a pure function of self.{'/'.join(sorted(allowed))}: " + "; ".join(sorted(set(why))))
+    last = True
+    for fn in [f for f in ast.walk(rd) if isinstance(f, (ast.FunctionDef, ast.AsyncFunctionDef))]:
+        top = {id(st) for st in fn.body}
+        for n in ast.walk(fn):
+            if _self_attr(n) and n.attr == "_folders" and isinstance(n.ctx, (ast.Store, ast.Del)):
+                st = [x for x in ast.walk(fn) if isinstance(x, ast.stmt) and any(y is n for y in ast.walk(x))]
+                inner = min(st, key=lambda x: (x.end_lineno - x.lineno, -x.lineno))
+                ok = (isinstance(inner, (ast.Assign, ast.AnnAssign)) and id(inner) in top and inner.value is not None
+                      and (isinstance(inner.value, ast.Name) or (isinstance(inner.value, ast.List) and not inner.value.elts))
+                      and (not isinstance(inner, ast.Assign) or (len(inner.targets) == 1 and inner.targets[0] is n)))
+                if not ok:
+                    last = False
+                    notes.append(f"{fn.name}: store to self._folders is not an unconditional plain assignment: {ast.unparse(inner)[:80]}")
+            if (isinstance(n, ast.Call) and isinstance(n.func, ast.Attribute) and _self_attr(n.func.value) and n.func.value.attr == "_folders"
+                    and n.func.attr in ("append", "extend", "insert", "clear", "pop", "remove", "sort", "reverse", "__setitem__", "__delitem__", "__iadd__")):
+                last = False
+                notes.append(f"{fn.name}: self._folders is mutated in place by .{n.func.attr}()")
+            if isinstance(n, ast.Subscript) and _self_attr(n.value) and n.value.attr == "_folders" and isinstance(n.ctx, (ast.Store, ast.Del)):
+                last = False
+                notes.append(f"{fn.name}: an item of self._folders is stored / deleted")
+    return pure, last
+
+
 @generator("Encryption")
 def gen_encryption() -> str:
     notes = []
@@ -351,6 +415,10 @@ def gen_encryption() -> str:
             header_enc_detected = raised == "ExtractionFileEncryptedError"
             break
 
+    # ---- 7z reader STATE: the answer of needs_password() is a function of the folders of the LAST streams info parsed
+    # (header's own folder of an EncodedHeader first, additional / main streams later), whoever asked before
+    sz_ask_pure, sz_last_write = _sz_reader_state(parse(SZ), notes)
+
     # ---- ODF
     ofn = find_func(ENC, "is_odf_encrypted")
     text_markers = [n.left.value for n in ast.walk(ofn) if isinstance(n, ast.Compare) and len(n.ops) == 1
@@ -462,6 +530,8 @@ def gen_encryption() -> str:
     L.append("  coderLzma2 := [" + ", ".join(str(b) for b in sz["CODER_LZMA2"]) + "]")
     L.append("  coderBcj := [" + ", ".join(str(b) for b in sz["CODER_BCJ"]) + "]")
     L.append(f"  szHeaderEncDetected := {'true' if header_enc_detected else 'false'}")
+    L.append(f"  szAskPure := {'true' if sz_ask_pure else 'false'}")
+    L.append(f"  szFoldersLastWriteWins := {'true' if sz_last_write else 'false'}")
     L.append("  odfManifest := " + chars(odf_member[0]))
     L.append("  odfEncTag := " + ("none" if odf_tag is None else f"some {chars(odf_tag)}"))
     L.append("  odfTextMarkers := [" + ", ".join(chars(s) for s in text_markers) + "]")
